@@ -93,12 +93,14 @@ macro_rules! rem_modulo_impl {
     ( $field:ident, $op_store:ty ) => {
         impl $field {
             #[must_use]
+            #[cfg_attr(kani, kani::ensures(|r: &Self| verif_kani::reduce_post(u128::from(input), r)))]
             fn modulo_prime_base(input: $op_store) -> Self {
                 #[allow(clippy::cast_possible_truncation)]
                 Self((input % <$op_store>::from(Self::PRIME)) as <Self as SharedValue>::Storage)
             }
 
             #[must_use]
+            #[cfg_attr(kani, kani::ensures(|r: &Self| verif_kani::reduce_post(input, r)))]
             fn modulo_prime_u128(input: u128) -> Self
             where
                 Self: U128Conversions,
@@ -173,6 +175,8 @@ macro_rules! field_impl {
         impl std::ops::Add for $field {
             type Output = Self;
 
+            #[cfg_attr(kani, kani::requires(verif_kani::canon(&self) && verif_kani::canon(&rhs)))]
+            #[cfg_attr(kani, kani::ensures(|r: &Self| verif_kani::add_post(&self, &rhs, r)))]
             fn add(self, rhs: Self) -> Self::Output {
                 let c = <$op_store>::from;
                 debug_assert!(c(Self::PRIME) < (<$op_store>::MAX >> 1));
@@ -191,6 +195,8 @@ macro_rules! field_impl {
         impl std::ops::Neg for $field {
             type Output = Self;
 
+            #[cfg_attr(kani, kani::requires(verif_kani::canon(&self)))]
+            #[cfg_attr(kani, kani::ensures(|r: &Self| verif_kani::neg_post(&self, r)))]
             fn neg(self) -> Self::Output {
                 // Invariant uphold by the construction
                 // 0 <= self < PRIME
@@ -202,6 +208,8 @@ macro_rules! field_impl {
         impl std::ops::Sub for $field {
             type Output = Self;
 
+            #[cfg_attr(kani, kani::requires(verif_kani::canon(&self) && verif_kani::canon(&rhs)))]
+            #[cfg_attr(kani, kani::ensures(|r: &Self| verif_kani::sub_post(&self, &rhs, r)))]
             fn sub(self, rhs: Self) -> Self::Output {
                 let c = <$op_store>::from;
                 debug_assert!(c(Self::PRIME) < (<$op_store>::MAX >> 1));
@@ -220,6 +228,8 @@ macro_rules! field_impl {
         impl std::ops::Mul for $field {
             type Output = Self;
 
+            #[cfg_attr(kani, kani::requires(verif_kani::canon(&self) && verif_kani::canon(&rhs)))]
+            #[cfg_attr(kani, kani::ensures(|r: &Self| verif_kani::mul_post(&self, &rhs, r)))]
             fn mul(self, rhs: Self) -> Self::Output {
                 debug_assert!(<$backend_store>::try_from(Self::PRIME).is_ok());
                 let c = <$op_store>::from;
@@ -562,6 +572,7 @@ mod fp61bit {
 
     impl Fp61BitPrime {
         #[must_use]
+        #[cfg_attr(kani, kani::ensures(|r: &Self| verif_kani::reduce_post(input as u128, r)))]
         pub const fn const_truncate(input: u64) -> Self {
             Self(input % Self::PRIME)
         }
@@ -574,6 +585,7 @@ mod fp61bit {
         }
 
         #[must_use]
+        #[cfg_attr(kani, kani::ensures(|r: &Self| verif_kani::reduce_post(val, r)))]
         fn modulo_prime_base(val: u128) -> Self {
             Self::modulo_prime_u128(val)
         }
@@ -584,6 +596,7 @@ mod fp61bit {
         /// [`bit_twiddling`]: https://graphics.stanford.edu/~seander/bithacks.html#ModulusDivision
         #[must_use]
         #[allow(clippy::cast_possible_truncation)]
+        #[cfg_attr(kani, kani::ensures(|r: &Self| verif_kani::reduce_post(val, r)))]
         fn modulo_prime_u128(val: u128) -> Self
         where
             Self: U128Conversions,
